@@ -417,7 +417,16 @@ impl<'a> ParserState<'a> {
 
             // subtracting line numbers is only sane within a file
             if prev_fileid == cur_fileid {
-                cur_line - prev_line
+                // a multi-line block comment is tagged with the line on which it starts, so the
+                // line breaks inside the comment must not be counted as part of the offset
+                let prev_token = &self.token_cursor.tokens[self.token_cursor.pos - 2];
+                let prev_newlines = if prev_token.ttype == A2lTokenType::Comment {
+                    let comment_text = self.get_token_text(prev_token);
+                    comment_text.bytes().filter(|c| *c == b'\n').count() as u32
+                } else {
+                    0
+                };
+                (cur_line - prev_line).saturating_sub(prev_newlines)
             } else {
                 // if the tokens come from different files then there is no line offset and the
                 // value 2 is used for formatting: 2 newlines leave one line empty
